@@ -16,6 +16,7 @@ run_demo() { (cd $WT && PYTHONPATH=$WT/src timeout 300 /venv/bin/python $WT/_mut
 R0=$(run_demo); L0=$(tail -1 $D/.demo.out)
 git -C $WT apply $D/patch.diff || { echo "patch does not apply"; exit 2; }
 R1=$(run_demo); L1=$(tail -1 $D/.demo.out)
+rm -f $WT/src/radical/pilot/VERSION
 BL=$(/tmp/mutkit/run_baseline.sh $WT | head -1)
 echo "demo without change: exit $R0 | $L0"
 echo "demo with change   : exit $R1 | $L1"
